@@ -272,6 +272,12 @@ for f in ('phase0', 'altair', 'bellatrix', 'capella', 'deneb'):
 for k in ('common:ProcessSlots', 'common:StateTransition', 'common:PostSlotTransition', 'altair:ProcessSyncAggregate', 'phase0:ProcessProposerSlashings', 'phase0:ProcessAttesterSlashings',
           'phase0:ProcessAttestations', 'altair:ProcessAttestations', 'deneb:ProcessAttestations', 'phase0:ProcessDeposits', 'capella:ProcessWithdrawals'):
     EXTRA.setdefault('eth2/beacon/' + k, []).append(_BALG)
+# participation-flag writes (altair on): whatever may reach process_attestation lists the ghost
+_PFG = '//@   assigns ghost(n_set_pflag)'
+for f in ('altair', 'bellatrix', 'capella', 'deneb'):
+    EXTRA.setdefault('eth2/beacon/%s:BeaconStateView.ProcessBlock' % f, []).append(_PFG)
+for k in ('common:StateTransition', 'common:PostSlotTransition', 'altair:ProcessAttestations', 'deneb:ProcessAttestations'):
+    EXTRA.setdefault('eth2/beacon/' + k, []).append(_PFG)
 # process_withdrawals (C03: the payload carries exactly the expected withdrawals; C01: balances decreased once per withdrawal, sweep cursors advanced)
 PROPS['eth2/beacon/capella:ProcessWithdrawals'] = ' C03 C01'
 _WS = 'old(n_wd_write), old(n_set_bal), st_vals(state), st_bals(state), st_slot(state) / spec.SLOTS_PER_EPOCH, spec.MAX_EFFECTIVE_BALANCE, st_next_wvi(state), reg_len(st_vals(state))'
